@@ -282,6 +282,13 @@ def scenario(g, install, ops, crash_at, tmp_other_device, nxt0, check):
                     return 'acknowledged delete left the message file'
         if src_key not in smd.msgs and src_key not in dmd.msgs:
             return 'the source message is in neither store after the kill'
+        if src_key in smd.msgs:
+            # still in the source folder (the operation on it was not completed): it keeps the UID it was
+            # acknowledged with - without its record the restarted server would hand it a new one
+            mine = [r for r in sl.records if bool(r.key == src_key)]
+            if len(mine) != 1:
+                return 'the source message is still in its folder but its UID record is gone after the kill'
+            check(mine[0].uid == 1, 'the source message changed its UID')
         return None
     finally:
         install(None, None, None)
